@@ -19,7 +19,7 @@ ASSUMPTIONS = ['a plane with scalar amplitude, array OPD and no mask has no exte
 PLAN = {'quick': {'gen': 8}, 'thorough': {'gen': 16, 'tests': 1, 'docs': 1}}
 REQUIRED_BUCKETS = ['broadband', 'plane:reused', 'wf:chain-overlap', 'amp:scalar', 'amp:array', 'opd:scalar', 'opd:array', 'mask:none', 'mask:2d', 'mask:3d',
                     'amp:scalar+mask:array', 'wf:default', 'wf:chain', 'wf:multi-field', 'wf:overlapping-fields',
-                    'plane:default', 'pixelscale:mismatch', 'insert:weight0', 'insert:negative', 'pupil:focal']
+                    'plane:default', 'pixelscale:mismatch', 'pixelscale:mismatch:scalar-plane', 'insert:weight0', 'insert:negative', 'pupil:focal']
 REQUIRED_ANCHORS = ['probe:Plane.multiply', 'probe:Pupil.multiply', 'probe:Wavefront.field',
                     'probe:Wavefront.intensity', 'probe:Wavefront.insert']
 REQUIRED_ORACLES = ['multiply=phasor', 'multiply:meta', 'field=render', 'intensity=|field|^2', 'insert=weight*intensity',
@@ -523,3 +523,27 @@ def workload(ctx, lentil):
                               {'ps': [ps1, ps2]})
         ctx.check(probe.fingerprint(w) == fw and probe.fingerprint(p2) == fp, 'pixelscale-refused',
                   'pixelscale|operands-changed', 'a refused multiplication changed an operand', {'ps': [ps1, ps2]})
+        # planes without extent (all attributes scalar) that state a pixel scale of their own are planes like any other
+        sk = i % 4
+        scalar_plane = [lambda: lentil.Pupil(amplitude=0.5, pixelscale=ps2, focal_length=1.0),
+                        lambda: lentil.Pupil(pixelscale=ps2, focal_length=2.0),
+                        lambda: lentil.Tilt(x=1e-6, y=2e-6, pixelscale=ps2),
+                        lambda: lentil.Pupil(opd=1e-8, pixelscale=ps2, focal_length=1.0)][sk]()
+        ctx.bucket('pixelscale:mismatch:scalar-plane')
+        ctx.expect_raises('pixelscale-refused', (ValueError,), lambda: scalar_plane.multiply(w),
+                          f'pixelscale|refusal|scalar-plane', 'a plane without extent but with an inconsistent pixel scale was not refused',
+                          {'ps': [ps1, ps2], 'plane': ['Pupil(amplitude)', 'Pupil', 'Tilt', 'Pupil(opd)'][sk]})
+        # ... while a consistent one is accepted and a wavefront without sampling adopts the plane's
+        same = [lambda: lentil.Pupil(amplitude=0.5, pixelscale=ps1, focal_length=1.0), lambda: lentil.Pupil(pixelscale=ps1, focal_length=2.0),
+                lambda: lentil.Tilt(x=1e-6, y=2e-6, pixelscale=ps1), lambda: lentil.Pupil(opd=1e-8, pixelscale=ps1, focal_length=1.0)][sk]()
+        try:
+            ok = same.multiply(w)
+            fresh = scalar_plane.multiply(lentil.Wavefront(wl))
+            want2 = tuple(np.broadcast_to(np.asarray(ps2, float), (2,)))
+            ctx.check(tuple(np.asarray(ok.pixelscale, float)) == (ps1, ps1) and tuple(np.asarray(fresh.pixelscale, float)) == want2,
+                      'multiply:meta', 'pixelscale|scalar-plane|adopted',
+                      'pixel scale after a plane without extent is not the common / adopted one',
+                      {'ps': [ps1, ps2], 'got': [None if ok.pixelscale is None else list(ok.pixelscale),
+                                                 None if fresh.pixelscale is None else list(fresh.pixelscale)]})
+        except Exception as e:
+            ctx.check(False, 'multiply:meta', f'pixelscale|scalar-plane|raises={type(e).__name__}', str(e), {'ps': [ps1, ps2]})
